@@ -638,6 +638,7 @@ class Interp:
                     r = Sym(q * (1 << lo_bit), n, 0, fld << lo_bit); r.tz = lo_bit
                     return r
             if op == 'xor' and b == 0: return a
+            if op == 'xor' and b == 1 and ahi <= 1: return Sym(1 - x, n, 1 - ahi, 1 - alo)          # negation of a 0/1 value
         if op == 'or' and isinstance(a, Sym) and isinstance(b, Sym):
             # disjoint bit ranges (hi << k) | lo: exact as a sum
             for p, q in ((a, b), (b, a)):
